@@ -303,14 +303,18 @@ func (b *Bucket) DeleteBucket(key []byte) (err error) {
 
 	// Recursively delete all child buckets.
 	child := b.Bucket(newKey)
+	var names [][]byte
 	err = child.ForEachBucket(func(k []byte) error {
-		if err := child.DeleteBucket(k); err != nil {
-			return fmt.Errorf("delete bucket: %s", err)
-		}
+		names = append(names, cloneBytes(k))
 		return nil
 	})
 	if err != nil {
 		return err
+	}
+	for _, k := range names {
+		if err := child.DeleteBucket(k); err != nil {
+			return fmt.Errorf("delete bucket: %s", err)
+		}
 	}
 
 	// Remove cached copy.
